@@ -241,23 +241,51 @@ def nilRenderer : FV → Rendered
   | .invalid => .nil
   | v => .bare (percentV v)
 
+inductive RKind where
+  | nil | string | ip | mac | etype | proto | dateTime | dateTimeNano | network | icmp
+  deriving Repr, DecidableEq, Inhabited
+
+def rkindOf (r : String) : RKind :=
+  if r = "StringRenderer" then .string
+  else if r = "IPRenderer" then .ip
+  else if r = "MacRenderer" then .mac
+  else if r = "EtypeRenderer" then .etype
+  else if r = "ProtoRenderer" then .proto
+  else if r = "DateTimeRenderer" then .dateTime
+  else if r = "DateTimeNanoRenderer" then .dateTimeNano
+  else if r = "NetworkRenderer" then .network
+  else if r = "ICMPRenderer" then .icmp
+  else .nil
+
 /-- one renderer applied to one value. `m` is needed by the network and ICMP renderers. -/
-def applyRenderer (m : FlowMsg) (fieldName : String) (r : String) (v : FV) : Rendered :=
-  if r = "NilRenderer" then nilRenderer v
-  else if r = "StringRenderer" then (match v with | .bytes b => .text b | v => nilRenderer v)
-  else if r = "IPRenderer" then (match v with | .bytes b => .text (renderIP b) | v => nilRenderer v)
-  else if r = "MacRenderer" then (match v with | .num n 64 => .text (macText (n % 2 ^ 48)) | v => nilRenderer v)
-  else if r = "EtypeRenderer" then (match v with | .num n _ => .text (etypeNameOf (n % 2 ^ 32)) | _ => .text (str "unknown"))
-  else if r = "ProtoRenderer" then (match v with | .num n _ => .text (protoNameOf (n % 2 ^ 32)) | _ => .text (str "unknown"))
-  else if r = "DateTimeRenderer" then (match v with | .num n 64 => .text (rfc3339 (goTimeSec (asInt64 n)) 0) | .num n _ => .text (rfc3339 n 0) | v => nilRenderer v)
-  else if r = "DateTimeNanoRenderer" then (match v with | .num n 64 => .text (rfc3339 ((asInt64 n).fdiv 1000000000) ((asInt64 n).emod 1000000000).toNat) | v => nilRenderer v)
-  else if r = "NetworkRenderer" then
+def applyKind (m : FlowMsg) (fieldName : String) : RKind → FV → Rendered
+  | .nil, v => nilRenderer v
+  | .string, .bytes b => .text b
+  | .string, v => nilRenderer v
+  | .ip, .bytes b => .text (renderIP b)
+  | .ip, v => nilRenderer v
+  | .mac, .num n bits => if bits = 64 then .text (macText (n % 2 ^ 48)) else nilRenderer (.num n bits)
+  | .mac, v => nilRenderer v
+  | .etype, .num n _ => .text (etypeNameOf (n % 2 ^ 32))
+  | .etype, _ => .text (str "unknown")
+  | .proto, .num n _ => .text (protoNameOf (n % 2 ^ 32))
+  | .proto, _ => .text (str "unknown")
+  | .dateTime, .num n bits => if bits = 64 then .text (rfc3339 (goTimeSec (asInt64 n)) 0) else .text (rfc3339 n 0)
+  | .dateTime, v => nilRenderer v
+  | .dateTimeNano, .num n bits =>
+    if bits = 64 then .text (rfc3339 ((asInt64 n).fdiv 1000000000) ((asInt64 n).emod 1000000000).toNat) else nilRenderer (.num n bits)
+  | .dateTimeNano, v => nilRenderer v
+  | .network, v =>
     let addr := if fieldName = "SrcNet" then m.srcAddr else if fieldName = "DstNet" then m.dstAddr else []
-    (match v with | .num n 32 => .text (prefixText addr n) | _ => .text (str "unknown"))
-  else if r = "ICMPRenderer" then
+    (match v with
+     | .num n bits => if bits = 32 then .text (prefixText addr n) else .text (str "unknown")
+     | _ => .text (str "unknown"))
+  | .icmp, _ =>
     .text (if m.proto = 1 then lookupName Goflow.Generated.icmpTypeName m.icmpType
            else if m.proto = 58 then lookupName Goflow.Generated.icmp6TypeName m.icmpType else str "unknown")
-  else nilRenderer v
+
+def applyRenderer (m : FlowMsg) (fieldName : String) (r : String) (v : FV) : Rendered :=
+  applyKind m fieldName (rkindOf r) v
 
 /-- the name printed for a configured field: the rename when there is a non-empty one -/
 def finalNameOf (f : Fmt) (s : String) : Bytes :=
@@ -291,13 +319,24 @@ def quoteIf (json : Bool) (quotes : Bytes) (r : Rendered) : Option Bytes :=
   | .bare b => some b
   | .nil => none
 
-/-- the elements of an array value, each rendered; a separator follows every rendered element but the last -/
-def sliceBody (f : Fmt) (m : FlowMsg) (json : Bool) (quotes : Bytes) (s : String) (elems : List FV) : Bytes :=
-  let n := elems.length
-  (elems.zipIdx.map fun (e, i) =>
-    match quoteIf json quotes (applyRenderer m (fieldNameOf f s) (rendererOf f s).1 e) with
-    | some b => b ++ (if i + 1 < n then str "," else [])
-    | none => []).flatten
+/-- one element of an array value, rendered (`none`: the renderer returned nil, the element is skipped) -/
+def renderElem (f : Fmt) (m : FlowMsg) (json : Bool) (quotes : Bytes) (s : String) (e : FV) : Option Bytes :=
+  quoteIf json quotes (applyRenderer m (fieldNameOf f s) (rendererOf f s).1 e)
+
+/-- the elements of an array value, each rendered; a separator follows every rendered element but the
+    last one of the array (`if i < c-1 { v += "," }` after the `continue` for nil) -/
+def sliceBody (f : Fmt) (m : FlowMsg) (json : Bool) (quotes : Bytes) (s : String) : List FV → Bytes
+  | [] => []
+  | [e] => (renderElem f m json quotes s e).getD []
+  | e :: e' :: rest =>
+    (match renderElem f m json quotes s e with
+     | some b => b ++ [0x2c]
+     | none => []) ++ sliceBody f m json quotes s (e' :: rest)
+
+/-- the elements of a value printed as an array (`fieldValue.Len()` / `Index(i)`): nothing for a non-list -/
+def elemsOf : FV → List FV
+  | .list l => l
+  | _ => []
 
 /-- one `name sign value` item, or nothing when the field is skipped -/
 def itemOf (f : Fmt) (m : FlowMsg) (unk : List (String × FV)) (json : Bool) (quotes sign : Bytes) (s : String) : Option Bytes :=
@@ -305,8 +344,7 @@ def itemOf (f : Fmt) (m : FlowMsg) (unk : List (String × FV)) (json : Bool) (qu
   | none => none
   | some v =>
     if (f.isSlice.lookup (fieldNameOf f s)).getD false then
-      let elems : List FV := match v with | .list l => l | _ => []
-      some (quotes ++ finalNameOf f s ++ quotes ++ sign ++ str "[" ++ sliceBody f m json quotes s elems ++ str "]")
+      some (quotes ++ finalNameOf f s ++ quotes ++ sign ++ [0x5b] ++ sliceBody f m json quotes s (elemsOf v) ++ [0x5d])
     else
       match quoteIf json quotes (applyRenderer m (fieldNameOf f s) (rendererOf f s).1 v) with
       | none => none
@@ -317,7 +355,7 @@ def formatItems (f : Fmt) (m : FlowMsg) (json : Bool) (quotes sign : Bytes) : Li
   f.fields.filterMap (itemOf f m (mapUnknown f m.unk) json quotes sign)
 
 def formatJSON (f : Fmt) (m : FlowMsg) : Bytes :=
-  str "{" ++ ((formatItems f m true (str "\"") (str ":")).intersperse (str ",")).flatten ++ str "}"
+  [0x7b] ++ ((formatItems f m true [0x22] [0x3a]).intersperse [0x2c]).flatten ++ [0x7d]
 
 def formatText (f : Fmt) (m : FlowMsg) : Bytes :=
   ((formatItems f m false [] (str "=")).intersperse (str " ")).flatten
